@@ -115,7 +115,10 @@ class Engine(object):
             self.contracts[contract.key] = contract
 
     def loop_spec(self, fr, node, ordinal=None, it=None):
-        specs = self.loopspecs.get(getattr(fr, 'fkey', None)) or {}
+        specs = self.loopspecs.get(getattr(fr, 'fkey', None))
+        if specs is None:
+            # a helper of the function under contract that was inlined (it has no contract of its own): the loop belongs to the caller's contract
+            specs = self.loopspecs.get(self.cur_key) or {}
         tgt = ast.unparse(node.target) if hasattr(node, 'target') else 'while'
         kind = it.kind if it is not None else 'while'
         arity = len(node.target.elts) if hasattr(node, 'target') and isinstance(node.target, (ast.Tuple, ast.List)) else 1
@@ -199,8 +202,10 @@ class Engine(object):
     def inline(self, interp, fi, argv, kwv):
         if any('not_implemented' in d for d in fi.decorators):
             raise PyRaise('NetworkXNotImplemented', fi.key)
-        if fi.decorators and not all('not_implemented' in d for d in fi.decorators):
+        if fi.decorators and not all('not_implemented' in d or d.startswith('open_file(') for d in fi.decorators):
             raise Undecided('decorated function %s' % fi.key)
+        if any(d.startswith('open_file(') for d in fi.decorators):
+            interp.ctx.notes.append('trusted: @open_file passes the opened file object in place of the path argument')
         saved = getattr(interp, 'cur_fkey', None)
         env = interp.bind_args(fi.fdef, argv, kwv)
         from .interp import Frame, _Return
